@@ -41,6 +41,9 @@ type Run struct {
 	NonTrivial bool
 	Verbose    bool
 	Lines      []string // verbose event lines (replay mode)
+	// Reduced holds, per violation key, a smaller plan that the oracle itself knows
+	// reproduces the violation (e.g. the single fault out of an enumeration).
+	Reduced map[string]any
 }
 
 func NewRun(prop string) *Run {
@@ -93,6 +96,18 @@ func (r *Run) Probe(name string) { r.Probes[name]++ }
 func (r *Run) T(parts ...string) { r.trace = append(r.trace, strings.Join(parts, ":")) }
 
 func (r *Run) Bad(why string) { r.Invalid = true; r.InvalidWhy = why }
+
+// ViolateP records an oracle failure together with a reduced plan for it.
+func (r *Run) ViolateP(reduced any, component, class, format string, args ...any) {
+	if r.Reduced == nil {
+		r.Reduced = map[string]any{}
+	}
+	k := r.Prop + "|" + component + "|" + class
+	if _, ok := r.Reduced[k]; !ok {
+		r.Reduced[k] = reduced
+	}
+	r.Violate(component, class, format, args...)
+}
 
 // Violate records an oracle failure.
 func (r *Run) Violate(component, class, format string, args ...any) {
